@@ -543,6 +543,176 @@ def _reorder(tree):
             "def reorderVertices (mi : Nat) (a1 : List Nat) (s : State) : State :=\n" + body)
 
 
+def _raw_and_instanciate(mtree, dtree, btree):
+    """mesh_data.py::RawMeshData.__init__ (the four data containers), ::_compute_dimensionality, mesh.py::_instanciate_raw_mesh_data,
+    datatypes/base.py::Mesh.__init__ (which containers of the raw data the typed mesh is built around), mesh.py::load"""
+    def u(x): return ast.unparse(x).replace(" ", "").replace('"', "'")
+    out = []
+    # ---- RawMeshData.__init__
+    fn = T.find_def(dtree, "RawMeshData.__init__")
+    args = [a.arg for a in fn.args.args]
+    if len(args) != 2: raise TranslateError("RawMeshData.__init__: parameters")
+    m = args[1]
+    got = {}
+    for st in _body(fn):
+        if isinstance(st, ast.AnnAssign): st = ast.Assign(targets=[st.target], value=st.value)
+        if not (isinstance(st, ast.Assign) and isinstance(st.targets[0], ast.Attribute) and u(st.targets[0].value) == "self"):
+            raise TranslateError(f"RawMeshData.__init__: statement not understood: {u(st)[:70]}")
+        fld, val = st.targets[0].attr, st.value
+        if fld in ("_dimensionality", "_prepared"): continue
+        if not isinstance(val, ast.IfExp): raise TranslateError(f"RawMeshData.__init__: {fld} is not `<new container> if … else mesh.{fld}`")
+        new_ok = u(val.body) in (f"DataContainer(id='{fld}')", f"CornerDataContainer(id='{fld}')")
+        t = u(val.test)
+        test_ok = t == f"{m}isNone" if fld == "vertices" else t in (f"({m}isNoneornothasattr({m},'{fld}'))", f"{m}isNoneornothasattr({m},'{fld}')")
+        if not new_ok or not test_ok: raise TranslateError(f"RawMeshData.__init__: {fld}: {u(val)[:90]}")
+        e = u(val.orelse)
+        if e == f"{m}.{fld}": got[fld] = "ref"
+        elif e in (f"deepcopy({m}.{fld})", f"copy.deepcopy({m}.{fld})"): got[fld] = "deep"
+        else: raise TranslateError(f"RawMeshData.__init__: {fld} taken from {e[:60]}")
+    want = ["vertices", "edges", "faces", "face_corners", "cells", "cell_corners", "cell_faces"]
+    if sorted(got) != sorted(want): raise TranslateError(f"RawMeshData.__init__: containers {sorted(got)}")
+    if any(v != "ref" for v in got.values()):
+        raise TranslateError(f"RawMeshData.__init__: some containers are copied, others shared: {got}")       # (the vocabulary has one `Raw` record of references)
+    out.append("/-- `RawMeshData.__init__(mesh)`: new empty containers, or — re-wrapping a mesh — THE CONTAINER OBJECTS OF THAT MESH (shared, not\n"
+               "copied); a container the mesh does not have is a new empty one (= the empty list of the model) -/\n"
+               "def rawInit (a0 : Option Mesh) : Raw :=\n  match a0 with\n  | none => Raw.empty\n"
+               "  | some m => { verts := m.verts, edges := m.edges, faces := m.faces, cells := m.cells }\n")
+    # ---- _compute_dimensionality
+    fn = T.find_def(dtree, "RawMeshData._compute_dimensionality")
+    b = _body(fn)
+    chain, node = [], b[0] if len(b) == 1 else None
+    while isinstance(node, ast.If):
+        t = u(node.test)
+        mm = [k for k in ("cells", "faces", "edges") if t == f"notself.{k}.empty()"]
+        if not mm or len(node.body) != 1 or not u(node.body[0]).startswith("self._dimensionality="): raise TranslateError("_compute_dimensionality: branch")
+        chain.append((mm[0], int(u(node.body[0]).split("=")[1])))
+        if len(node.orelse) == 1 and isinstance(node.orelse[0], ast.If): node = node.orelse[0]
+        else:
+            if len(node.orelse) != 1 or not u(node.orelse[0]).startswith("self._dimensionality="): raise TranslateError("_compute_dimensionality: else")
+            chain.append((None, int(u(node.orelse[0]).split("=")[1]))); node = None
+    if not chain or chain[-1][0] is not None: raise TranslateError("_compute_dimensionality: shape")
+    txt = "  " + " else ".join((f"if hasKind raw.{k} then {v}" if k else str(v)) for k, v in chain)
+    out.append("/-- `RawMeshData._compute_dimensionality` (cached by the `dimensionality` property) -/\ndef rawDim (raw : Raw) : Int :=\n" + txt + "\n")
+    # ---- Mesh.__init__(dim, data): which containers the typed mesh is built around
+    fn = T.find_def(btree, "Mesh.__init__")
+    uses = {}
+    def walk(stmts, guard):
+        for st in stmts:
+            if isinstance(st, ast.If) and u(st.test) == "dataisNone": walk(st.body, guard); walk(st.orelse, guard); continue
+            if isinstance(st, ast.If) and u(st.test).startswith("dim>") and not st.orelse: walk(st.body, int(u(st.test)[4:])); continue
+            if isinstance(st, ast.Assign) and u(st.targets[0]).startswith("self.") and u(st.value).startswith("data."):
+                fld = u(st.targets[0])[5:]
+                if u(st.value) != f"data.{fld}": raise TranslateError(f"Mesh.__init__: self.{fld} = {u(st.value)}")
+                uses[fld] = guard; continue
+            if u(st) in ("data=RawMeshData()", "data.prepare()"): continue
+            if isinstance(st, ast.Assign) and not u(st.value).startswith(("data.", "deepcopy(data", "copy(")): continue      # other fields of the mesh object
+            raise TranslateError(f"Mesh.__init__: statement not understood: {u(st)[:70]}")
+    walk(_body(fn), -1)
+    if {k: uses.get(k) for k in ("vertices", "edges", "faces", "cells")} != {"vertices": -1, "edges": 0, "faces": 1, "cells": 2}:
+        raise TranslateError(f"Mesh.__init__: containers / dimension guards {uses}")
+    out.append("/-- `Mesh.__init__(dim, data)`: the typed mesh is built AROUND the containers of `data` (references, no copy): `vertices` always,\n"
+               "`edges` if dim > 0, `faces` if dim > 1, `cells` if dim > 2 -/\n"
+               "def typedMesh (dim : Int) (raw : Raw) : Mesh :=\n"
+               "  { verts := raw.verts, edges := if dim > 0 then raw.edges else [], faces := if dim > 1 then raw.faces else [],\n"
+               "    cells := if dim > 2 then raw.cells else [] }\n")
+    # ---- _instanciate_raw_mesh_data
+    fn = T.find_def(mtree, "_instanciate_raw_mesh_data")
+    a = [x.arg for x in fn.args.args]
+    if len(a) != 2: raise TranslateError("_instanciate_raw_mesh_data: parameters")
+    d, dm = a
+    b = _body(fn)
+    ok = (len(b) == 7 and u(b[0]) == f"{d}.prepare()" and u(b[1]).replace("\n", "") in (f"if{dm}isNone:{dm}=-1",)
+          and u(b[2]) in (f"{dm}=max({dm},{d}.dimensionality)", f"{dm}=max({d}.dimensionality,{dm})"))
+    cls = []
+    for st, (k, c) in zip(b[3:], enumerate(["PointCloud", "PolyLine", "SurfaceMesh", "VolumeMesh"])):
+        if u(st).replace("\n", "") not in (f"if{dm}=={k}:return{c}({d})", f"if{k}=={dm}:return{c}({d})"): ok = False
+    if not ok: raise TranslateError("_instanciate_raw_mesh_data: body not recognised: " + " ; ".join(u(x)[:40] for x in b))
+    out.append("/-- `_instanciate_raw_mesh_data(mesh_data, dim)`: `prepare()` (C02; the coordinates keep their cells), the class is\n"
+               "`max(dim or -1, dimensionality)`; a dimension above 3 falls off the end (returns None) -/\n"
+               "def instanciateRaw (raw : Raw) (a1 : Option Int) : Option (Int × Mesh) :=\n"
+               "  let v1 : Int := match a1 with\n    | none => -1\n    | some d => d\n"
+               "  let v2 := max v1 (rawDim raw)\n"
+               "  if v2 = 0 then some (0, typedMesh 0 raw) else if v2 = 1 then some (1, typedMesh 1 raw)\n"
+               "  else if v2 = 2 then some (2, typedMesh 2 raw) else if v2 = 3 then some (3, typedMesh 3 raw) else none\n")
+    # ---- load
+    fn = T.find_def(mtree, "load")
+    a = [x.arg for x in fn.args.args]
+    b = _body(fn)
+    if not (len(a) == 3 and len(b) == 3 and u(b[0]).endswith(f"=read_by_extension({a[0]})") and isinstance(b[0], ast.Assign)):
+        raise TranslateError("load: `data = read_by_extension(filename)` not found")
+    dv = b[0].targets[0].id
+    if u(b[1]).replace("\n", "") != f"if{a[2]}:return{dv}" or u(b[2]) != f"return_instanciate_raw_mesh_data({dv},{a[1]})":
+        raise TranslateError("load: returns not recognised")
+    out.append("/-- `load(filename, dim, raw)`: the raw data read from the file (`readFile`: new vector objects), returned as it is or typed by\n"
+               "`_instanciate_raw_mesh_data`; the typed mesh is built around the SAME containers, so either way the state gains one mesh -/\n"
+               "def load (vs : List V3) (e f c : List (List Nat)) (a1 : Option Int) (a2 : Bool) (s : State) : State :=\n"
+               "  let v1 := readFile s vs e f c\n  if a2 then v1 else v1\n")
+    return "\n".join(out)
+
+
+def _producer_sites(tree, name):
+    """procedural producers: every statement that stores a vertex (`<acc>.vertices.append(e)` / `<acc>.vertices[k] = e`), in source order,
+    with the provenance of the stored object; a plain name must have been (re)bound to a new object since it was last stored"""
+    fn = T.find_def(tree, name)
+    b = _body(fn)
+    if not (b and isinstance(b[0], ast.Assign) and ast.unparse(b[0].value) == "RawMeshData()"): raise TranslateError(f"{name}: accumulator")
+    acc = b[0].targets[0].id
+    sites = []
+    state = {}       # local name -> "fresh" | "copy" | "alias" | "stored"
+
+    def u(x): return ast.unparse(x).replace(" ", "")
+
+    def prov(e):
+        if isinstance(e, ast.Call) and u(e.func) == "Vec":
+            if len(e.args) >= 2: return "fresh"
+            if len(e.args) == 1:
+                a = e.args[0]
+                if isinstance(a, ast.Call) and isinstance(a.func, ast.Attribute) and a.func.attr == "copy" and not a.args: return "copy"
+                if isinstance(a, ast.Call) and u(a.func) in ("np.array", "np.copy"): return "copy"
+                if isinstance(a, (ast.BinOp, ast.List, ast.Tuple)): return "fresh"
+                return "alias"                                   # Vec(x) of an existing array is a VIEW
+        if isinstance(e, ast.BinOp): return "fresh"              # numpy arithmetic returns a new array
+        if isinstance(e, ast.Call) and u(e.func) in ("rotate_2d", "np.array", "np.zeros", "Vec.zeros", "Vec.normalized"): return "fresh"
+        if isinstance(e, ast.Name): return state.get(e.id, "alias")
+        return "alias"
+
+    def walk(stmts, in_loop):
+        for st in stmts:
+            if isinstance(st, ast.Assign) and len(st.targets) == 1 and isinstance(st.targets[0], ast.Name):
+                state[st.targets[0].id] = prov(st.value)
+            elif isinstance(st, ast.Expr) and isinstance(st.value, ast.Call) and u(st.value.func) == f"{acc}.vertices.append" and len(st.value.args) == 1:
+                e = st.value.args[0]
+                p = prov(e)
+                sites.append((u(st)[:60], p))
+                if isinstance(e, ast.Name): state[e.id] = "alias"        # the object is now stored: storing the same name again would alias
+            elif isinstance(st, ast.Assign) and isinstance(st.targets[0], ast.Subscript) and u(st.targets[0].value) == f"{acc}.vertices":
+                sites.append((u(st)[:60], prov(st.value)))
+            elif isinstance(st, (ast.For, ast.While)):
+                walk(st.body, True)
+                walk(st.body, True)          # a second pass: a name stored in one iteration must be rebound before the next store
+                sites[:] = list(dict.fromkeys(sites)) if False else sites
+            elif isinstance(st, ast.If):
+                walk(st.body, in_loop); walk(st.orelse, in_loop)
+    walk(b[1:], False)
+    # the loop bodies were walked twice: keep the WORST provenance seen per site text
+    worst = {}
+    order = []
+    for t, p in sites:
+        if t not in worst: order.append(t)
+        rank = {"fresh": 0, "copy": 1, "alias": 2}
+        if t not in worst or rank[p] > rank[worst[t]]: worst[t] = p
+    if not order: raise TranslateError(f"{name}: no vertex store found")
+    last = b[-1]
+    if not (isinstance(last, ast.Return) and u(last.value).startswith(f"_instanciate_raw_mesh_data({acc}")):
+        raise TranslateError(f"{name}: does not return the instanciated accumulator")
+    lean = name.replace("_r", "R") if name == "flat_ring" else name
+    items = ", ".join('("' + t.replace('"', "'") + '", .' + worst[t] + ')' for t in order)
+    return (f"/-- `{name}`: the statements that store a vertex, with the provenance of the stored object -/\n"
+            f"def {lean}VertexSites : List (String × Prov) := [{items}]\n"
+            f"/-- `{name}` over an abstract point list (the trigonometry is not modelled): the mesh it returns -/\n"
+            f"def {lean} (pts : List V3) (e f : List (List Nat)) (s : State) : State := producerByTable {lean}VertexSites pts e f [] s\n")
+
+
 def translate_sites():
     sites, chunks, status = [], [], {}
     try:
@@ -583,6 +753,19 @@ def translate_sites():
         chunks.append(_reorder(mtree)); return "argsort, vertex loop (stored objects appended), relabelled elements"
     rec = T.site("mesh.py:reorder_vertices (body)", ro)
     sites.append(rec); status["reorder_vertices"] = rec["ok"]
+
+    def ri():
+        dtree, _ = T.load("mouette/mesh/mesh_data.py")
+        btree, _ = T.load("mouette/mesh/datatypes/base.py")
+        chunks.append(_raw_and_instanciate(mtree, dtree, btree)); return "re-wrap shares the containers; class = max(dim, dimensionality); load"
+    rec = T.site("mesh_data.py:RawMeshData.__init__ / _compute_dimensionality, base.py:Mesh.__init__, mesh.py:_instanciate_raw_mesh_data / load (bodies)", ri)
+    sites.append(rec); status["instanciate"] = rec["ok"]
+
+    def rg():
+        rtree, _ = T.load("mouette/procedural/rings.py")
+        chunks.append(_producer_sites(rtree, "ring") + "\n" + _producer_sites(rtree, "flat_ring")); return "vertex store sites with provenance"
+    rec = T.site("rings.py:ring / flat_ring (vertex store sites)", rg)
+    sites.append(rec); status["rings"] = rec["ok"]
     if all(r["ok"] for r in sites):
         body = ("import Mouette.Model.MeshSource\nnamespace Mouette.Generated.C06Src\nopen Mouette.MeshHeap Mouette.MeshSrc\n"
                 "set_option linter.unusedVariables false\n\n" + "\n".join(chunks) + "\nend Mouette.Generated.C06Src\n")
